@@ -617,6 +617,8 @@ def resampleStepwise(xin, yin, xout, avg=True):
         chunk = yin[start - 1 : end]
         length = xin[start - 1 : end + 1]
         length = [length[j] - length[j - 1] for j in range(1, len(length))]
+        # the fraction of each xin bin that lies inside this xout bin (for summing)
+        scale = [1.0] * len(chunk)
 
         # if the xout lies outside the xin range
         if not len(chunk):
@@ -629,10 +631,11 @@ def resampleStepwise(xin, yin, xout, avg=True):
             if fraction == 0:
                 chunk = chunk[:-1]
                 length = length[:-1]
+                scale = scale[:-1]
             elif avg:
                 length[-1] *= fraction
             else:
-                chunk[-1] *= fraction
+                scale[-1] -= 1.0 - fraction
 
         # trim any partial left-side bins
         if xout[i - 1] > xin[start - 1]:
@@ -640,10 +643,11 @@ def resampleStepwise(xin, yin, xout, avg=True):
             if fraction == 0:
                 chunk = chunk[1:]
                 length = length[1:]
+                scale = scale[1:]
             elif avg:
                 length[0] *= fraction
             else:
-                chunk[0] *= fraction
+                scale[0] -= 1.0 - fraction
 
         # return the sum or the average
         if [1 for c in chunk if (not hasattr(c, "__len__") and c is None)]:
@@ -652,7 +656,7 @@ def resampleStepwise(xin, yin, xout, avg=True):
             weighted_sum = sum([ch * ln for ch, ln in zip(chunk, length)])
             yout.append(weighted_sum / sum(length))
         else:
-            yout.append(sum(chunk))
+            yout.append(sum([ch * sc for ch, sc in zip(chunk, scale)]))
 
     return yout
 
